@@ -55,8 +55,8 @@ fn real_filters(case: &Value) -> Option<Vec<BodyFilter>> {
 }
 
 /// run the REAL chain on one chunk: (filter output ++ end output, entered the error state?)
-fn run_real(filters: Vec<BodyFilter>, input: &[u8]) -> (Vec<u8>, bool) {
-    let mut chain = FilterBodyAction::new(filters, &[]);
+fn run_real(filters: Vec<BodyFilter>, input: &[u8], headers: &[redirectionio::http::Header]) -> (Vec<u8>, bool) {
+    let mut chain = FilterBodyAction::new(filters, headers);
     let mut out = chain.filter(input.to_vec(), None);
     let mut err = chain.verif_in_error();
     out.extend(chain.end(None));
@@ -738,6 +738,37 @@ fn gen_boundary(emit: &mut dyn FnMut(Value)) {
         let target = el("main", "main", "", 'n', (0..n / 64).map(|i| el("i", "i", "", 'n', vec![txt(&format!("{i}"))])).collect());
         emit_skeleton("", "", target, None, "main", &["append_child", "replace"], &"V".repeat(n), "long", emit);
     }
+    // the Content-Type gate of FilterBodyAction::new: response headers decide whether html filters build a stage at all
+    // (no Content-Type, or one whose lower-cased value contains "text/html"; the LAST header of that name wins)
+    {
+        let mut base: Vec<Value> = Vec::new();
+        {
+            let mut cap = |v: Value| base.push(v);
+            let target = el("main", "main", " class=\"x\"", 'n', vec![txt("in"), el("b", "b", "", 'n', vec![txt("deep")])]);
+            emit_skeleton("", "", target, None, "main", &all, "<ins>V</ins>", "gate", &mut cap);
+            let v1 = el("img", "img", " src=\"x\"", 's', vec![]);
+            emit_skeleton("", "", v1, None, "img", &["replace"], "<i>r</i>", "gate", &mut cap);
+        }
+        let header_sets: Vec<Vec<(&str, &str)>> = vec![
+            vec![("Content-Type", "text/html")],
+            vec![("content-type", "TEXT/HTML; charset=utf-8")],
+            vec![("CONTENT-TYPE", "application/xhtml+xml, text/html;q=0.9")],
+            vec![("Content-Type", "application/json")],
+            vec![("Content-Type", "text/htm")],
+            vec![("Content-Type", "")],
+            vec![("Content-Type", "text/plain"), ("CONTENT-type", "text/html")],
+            vec![("Content-Type", "text/html"), ("content-type", "text/css")],
+            vec![("X-Content-Type", "application/json"), ("Content-Length", "12")],
+            vec![("Content-Type-Options", "nosniff")],
+        ];
+        for c in &base {
+            for hs in &header_sets {
+                let mut c2 = c.clone();
+                c2["headers"] = json!(hs.iter().map(|(n, v)| json!([n, v])).collect::<Vec<_>>());
+                emit(c2);
+            }
+        }
+    }
 }
 
 /// Diff-directed search: cases built from the numbers and strings of the changed source lines (`VERIF_HINTS`).
@@ -957,8 +988,31 @@ fn run(case: &Value) -> Obs {
         Some(f) => f,
         None => return Obs::invalid("filters (optional fields)"),
     };
-    let (out, in_error) = run_real(real, input.as_bytes());
-    let mut o = Obs::new(json!(hex(&out))).trivial(acted == 0);
+    // optional response headers (ASCII; no Content-Encoding here: C14): the Content-Type gate, recomputed independently
+    let mut headers: Vec<redirectionio::http::Header> = Vec::new();
+    if let Some(a) = case.get("headers").and_then(|h| h.as_array()) {
+        for h in a {
+            match (h.get(0).and_then(|x| x.as_str()), h.get(1).and_then(|x| x.as_str())) {
+                (Some(n), Some(v)) if n.is_ascii() && v.is_ascii() && !n.eq_ignore_ascii_case("content-encoding") => {
+                    headers.push(redirectionio::http::Header { name: n.to_string(), value: v.to_string() })
+                }
+                _ => return Obs::invalid("headers"),
+            }
+        }
+    }
+    let gate_open = match headers.iter().rev().find(|h| h.name.eq_ignore_ascii_case("content-type")) {
+        None => true,
+        Some(h) => h.value.to_ascii_lowercase().contains("text/html"),
+    };
+    if !gate_open {
+        expect = input.clone();
+        acted = 0;
+    }
+    let (out, in_error) = run_real(real, input.as_bytes(), &headers);
+    let mut o = Obs::new(json!(hex(&out))).trivial(acted == 0 && headers.is_empty());
+    if !headers.is_empty() {
+        o.tags.push(format!("gate:{}", if gate_open { "open" } else { "closed" }));
+    }
     o.tags.push(format!("filters:{}", fs.len()));
     o.tags.push(format!("acted:{acted}"));
     if let Some(arr) = case.get("filters").and_then(|f| f.as_array()) {
